@@ -79,11 +79,107 @@ class Spec:
 
 
 class Pure:
-    def __init__(self, fn_node, spec, module_consts=None):
+    BUILTIN_CALLS = ("int", "round", "max", "min", "len", "isinstance", "divmod", "slice", "AudioRegion", "super", "float", "str", "bool")
+
+    def __init__(self, fn_node, spec, module_consts=None, module=None, cls=None):
         self.fn = fn_node
         self.spec = spec
         self.fresh = 0
         self.module_consts = module_consts or {}
+        self.module = module        # ast.Module the function lives in: helper functions are inlined from it
+        self.cls = cls              # ast.ClassDef of a method: helper methods are inlined from it
+        self.depth = 0
+
+    # ------------------------------------------------------------ helpers defined next to the translated function
+    def resolve(self, call):
+        """FunctionDef of a helper called as name(...) (module level) or self.name(...) (same class), else None"""
+        f = call.func
+        if isinstance(f, ast.Name) and self.module is not None and f.id not in self.BUILTIN_CALLS and f.id not in EXC:
+            c = [n for n in self.module.body if isinstance(n, ast.FunctionDef) and n.name == f.id]
+            return c[0] if len(c) == 1 else None
+        if isinstance(f, ast.Attribute) and isinstance(f.value, ast.Name) and f.value.id == "self" and self.cls is not None:
+            c = [n for n in self.cls.body if isinstance(n, ast.FunctionDef) and n.name == f.attr
+                 and (not n.decorator_list or [ast.unparse(d) for d in n.decorator_list] == ["staticmethod"])]
+            return c[0] if len(c) == 1 else None
+        return None
+
+    @staticmethod
+    def body_of(fn):
+        b = list(fn.body)
+        if b and isinstance(b[0], ast.Expr) and isinstance(b[0].value, ast.Constant) and isinstance(b[0].value.value, str):
+            b = b[1:]
+        return b
+
+    def callee_env(self, fn, call, env, binds):
+        params = [a.arg for a in fn.args.args if a.arg != "self"]
+        if call.keywords or len(call.args) > len(params) or fn.args.vararg or fn.args.kwarg or fn.args.kwonlyargs:
+            bad(call, "unsupported way of calling helper %s" % fn.name)
+        vals = [self.expr(a, env, binds) for a in call.args]
+        ndef = len(fn.args.defaults)
+        for i in range(len(vals), len(params)):
+            j = i - (len(params) - ndef)
+            if j < 0:
+                bad(call, "missing argument for helper %s" % fn.name)
+            vals.append(self.expr(fn.args.defaults[j], {}, binds))
+        cenv = {k: v for k, v in env.items() if k.startswith("self.")}
+        for p_, v in zip(params, vals):
+            cenv[p_] = v
+            for suffix in (".start", ".stop"):
+                # slice-typed arguments carry their bounds along
+                pass
+        for a, p_ in zip(call.args, params):
+            if isinstance(a, ast.Name) and a.id in env and env[a.id].ty.startswith("slice_"):
+                cenv[p_ + ".start"] = env[a.id + ".start"]
+                cenv[p_ + ".stop"] = env[a.id + ".stop"]
+        return cenv
+
+    def inline_stmt(self, fn, call, env, node, kont):
+        """translate the body of helper `fn` in place; kont(value, env_with_updated_self_fields) continues the caller"""
+        if self.depth > 5:
+            bad(call, "helper calls nested too deeply")
+        binds = []
+        cenv = self.callee_env(fn, call, env, binds)
+        saved = self.spec.ret
+        outer = self
+
+        def merged(cenv2):
+            e = dict(env)
+            for k_, v_ in cenv2.items():
+                if k_.startswith("self."):
+                    e[k_] = v_
+            return e
+
+        def callee_ret(tr, v, cenv2, n):
+            outer.spec.ret = saved
+            outer.depth -= 1
+            try:
+                if v.ty == "error":
+                    return saved(tr, v, merged(cenv2), n)
+                return kont(v, merged(cenv2))
+            finally:
+                outer.depth += 1
+                outer.spec.ret = callee_ret
+        self.spec.ret = callee_ret
+        self.depth += 1
+        try:
+            return self.wrap(binds, self.block(self.body_of(fn), cenv, lambda e2: callee_ret(self, NONE, e2, fn)))
+        finally:
+            self.depth -= 1
+            self.spec.ret = saved
+
+    def inline_expr(self, fn, call, env, binds):
+        """helpers that are a single `return <expr>` are inlined inside expressions"""
+        body = self.body_of(fn)
+        if len(body) != 1 or not isinstance(body[0], ast.Return) or body[0].value is None:
+            bad(call, "helper %s is not a single return expression (it can only be called as a statement: x = %s(...))" % (fn.name, fn.name))
+        if self.depth > 5:
+            bad(call, "helper calls nested too deeply")
+        cenv = self.callee_env(fn, call, env, binds)
+        self.depth += 1
+        try:
+            return self.expr(body[0].value, cenv, binds)
+        finally:
+            self.depth -= 1
 
     def new(self, base):
         self.fresh += 1
@@ -117,6 +213,16 @@ class Pure:
                 return sp.consts[e.id]
             if e.id in self.module_consts:
                 return self.module_consts[e.id]
+            if self.module is not None:
+                # a module-level constant: numbers are inlined, anything else can only be message text
+                defs = [n for n in self.module.body if isinstance(n, ast.Assign) and len(n.targets) == 1
+                        and isinstance(n.targets[0], ast.Name) and n.targets[0].id == e.id]
+                if len(defs) == 1:
+                    val = defs[0].value
+                    if isinstance(val, ast.Constant) and isinstance(val.value, (int, float)) and not isinstance(val.value, bool):
+                        return self.expr(val, {}, binds)
+                    if isinstance(val, (ast.Constant, ast.JoinedStr, ast.Call, ast.BinOp)) and not (isinstance(val, ast.Constant) and not isinstance(val.value, str)):
+                        return V('""', "str")
             bad(e, "unknown name %s" % e.id)
         if isinstance(e, ast.Attribute):
             if isinstance(e.value, ast.Name) and e.value.id == "self":
@@ -133,14 +239,13 @@ class Pure:
                     return env[e.value.id + "." + e.attr]
                 if e.attr == "step":
                     return NONE
-            if isinstance(e.value, ast.Name) and e.value.id == "math":
-                return V("math." + e.attr, "mathfn")
+            if isinstance(e.value, ast.Name) and e.value.id == "math" and e.attr in ("floor", "ceil"):
+                return V("py_" + e.attr, "round_fn")
             bad(e, "unsupported attribute access")
         if isinstance(e, ast.UnaryOp):
             x = self.expr(e.operand, env, binds)
             if isinstance(e.op, ast.Not):
-                if x.ty != "bool":
-                    bad(e, "not on %s" % x.ty)
+                x = self.truthy(e, x)
                 if x.has_const:
                     return FALSE if x.const else TRUE
                 return V("(negb %s)" % x.text, "bool")
@@ -156,9 +261,7 @@ class Pure:
             is_and = isinstance(e.op, ast.And)
             acc = None
             for sub in e.values:
-                x = self.expr(sub, env, binds)
-                if x.ty != "bool":
-                    bad(sub, "and/or on %s" % x.ty)
+                x = self.truthy(sub, self.expr(sub, env, binds))
                 if x.has_const:
                     if x.const == (not is_and):       # True in an or / False in an and: decides, rest is not evaluated
                         if acc is None:
@@ -180,7 +283,7 @@ class Pure:
                     bad(e, "is / is not with something else than None")
                 if a.ty == "none":
                     r = True
-                elif a.ty in ("Z", "F", "bool", "bytes", "str"):
+                elif a.ty in ("Z", "F", "bool", "bytes", "str", "tuple", "elem"):
                     r = False
                 else:
                     bad(e, "None-ness of %s is not known here" % a.ty)
@@ -191,6 +294,9 @@ class Pure:
             tab_z = {ast.Lt: "(%s <? %s)", ast.LtE: "(%s <=? %s)", ast.Gt: "(%s >? %s)", ast.GtE: "(%s >=? %s)", ast.Eq: "(%s =? %s)", ast.NotEq: "(negb (%s =? %s))"}
             tab_f = {ast.Lt: "(flt %s %s)", ast.LtE: "(fle %s %s)", ast.Gt: "(flt %s %s)", ast.GtE: "(fle %s %s)", ast.Eq: "(feq %s %s)", ast.NotEq: "(negb (feq %s %s))"}
             if a.ty == "Z":
+                if isinstance(op, (ast.Gt, ast.GtE)):
+                    # a > b is emitted as b < a: one normal form for the tie proofs
+                    return V(tab_z[ast.Lt if isinstance(op, ast.Gt) else ast.LtE] % (b.text, a.text), "bool")
                 return V(tab_z[type(op)] % (a.text, b.text), "bool")
             if a.ty == "F":
                 if isinstance(op, (ast.Gt, ast.GtE)):
@@ -218,9 +324,7 @@ class Pure:
                 return V(tab[type(e.op)] % (a.text, b.text), "F")
             bad(e, "binary operator on %s" % a.ty)
         if isinstance(e, ast.IfExp):
-            c = self.expr(e.test, env, binds)
-            if c.ty != "bool":
-                bad(e, "condition of a conditional expression is %s" % c.ty)
+            c = self.truthy(e.test, self.expr(e.test, env, binds))
             if c.has_const:
                 return self.expr(e.body if c.const else e.orelse, env, binds)
             x = self.expr(e.body, env, binds)
@@ -242,12 +346,23 @@ class Pure:
                 return V(None, "region_slice", (lo, hi), False)
             if base.ty != "bytes" or not isinstance(e.slice, ast.Slice) or e.slice.step is not None:
                 bad(e, "only bytes[a:b] is supported")
-            lo = self.expr(e.slice.lower, env, binds) if e.slice.lower is not None else NONE
+            # an omitted lower bound is 0 (the step is always omitted, i.e. positive)
+            lo = self.expr(e.slice.lower, env, binds) if e.slice.lower is not None else V("0", "Z", 0, True)
             hi = self.expr(e.slice.upper, env, binds) if e.slice.upper is not None else NONE
             return V("(py_slice %s %s %s)" % (base.text, self.as_opt(e, lo), self.as_opt(e, hi)), "bytes")
         if isinstance(e, ast.Call):
             return self.call(e, env, binds)
         bad(e, "unsupported expression")
+
+    def truthy(self, node, v):
+        """Python truth value of v as a bool-typed V (bytes: non-empty; None: False)"""
+        if v.ty == "bool":
+            return v
+        if v.ty == "bytes":
+            return V("(nonempty %s)" % v.text, "bool")
+        if v.ty == "none":
+            return FALSE
+        bad(node, "truth value of %s" % v.ty)
 
     def as_opt(self, node, v):
         if v.ty == "none":
@@ -284,6 +399,11 @@ class Pure:
             bad(e, "keyword arguments in a call")
         if name == "isinstance":
             return TRUE
+        if name in EXC:
+            return V("Err " + EXC[name], "exc")
+        helper = self.resolve(e)
+        if helper is not None and not (name is not None and name in self.spec.siblings):
+            return self.inline_expr(helper, e, env, binds)
         if name in ("max", "min") and len(e.args) == 2:
             a = self.expr(e.args[0], env, binds); b = self.expr(e.args[1], env, binds)
             if a.ty != "Z" or b.ty != "Z":
@@ -351,6 +471,28 @@ class Pure:
             return cont(env)
         if isinstance(st, ast.Pass):
             return cont(env)
+        # helpers called as statements are inlined from their own source
+        call = None
+        if isinstance(st, (ast.Assign, ast.Return, ast.Expr)) and isinstance(getattr(st, "value", None), ast.Call):
+            call = st.value
+        elif isinstance(st, ast.Raise) and isinstance(st.exc, ast.Call):
+            call = st.exc
+        helper = self.resolve(call) if call is not None else None
+        if helper is not None and isinstance(call.func, ast.Name) and call.func.id in self.spec.siblings:
+            helper = None
+        if helper is not None and not (len(self.body_of(helper)) == 1 and isinstance(self.body_of(helper)[0], ast.Return) and not isinstance(st, (ast.Expr,))):
+            if isinstance(st, ast.Assign) and len(st.targets) == 1:
+                return self.inline_stmt(helper, call, env, st, lambda v, env2: self.assign(st.targets[0], v, env2, cont, st))
+            if isinstance(st, ast.Return):
+                return self.inline_stmt(helper, call, env, st, lambda v, env2: self.spec.ret(self, v, env2, st))
+            if isinstance(st, ast.Expr):
+                return self.inline_stmt(helper, call, env, st, lambda v, env2: cont(env2))
+            if isinstance(st, ast.Raise):
+                def raise_k(v, env2):
+                    if v.ty != "exc":
+                        bad(st, "raise of something that is not an exception")
+                    return self.spec.ret(self, V(v.text, "error"), env2, st)
+                return self.inline_stmt(helper, call, env, st, raise_k)
         if isinstance(st, ast.Assign) and len(st.targets) == 1:
             binds = []
             v = self.expr(st.value, env, binds)
@@ -364,9 +506,7 @@ class Pure:
             return self.wrap(binds, self.assign(st.target, v, env, cont, st))
         if isinstance(st, ast.If):
             binds = []
-            c = self.expr(st.test, env, binds)
-            if c.ty != "bool":
-                bad(st, "condition of type %s" % c.ty)
+            c = self.truthy(st.test, self.expr(st.test, env, binds))
             if c.has_const:
                 return self.wrap(binds, self.block((st.body if c.const else st.orelse) + rest, env, k))
             t = self.block(st.body + rest, dict(env), k)
@@ -380,7 +520,11 @@ class Pure:
             exc = st.exc
             nm = exc.func.id if isinstance(exc, ast.Call) and isinstance(exc.func, ast.Name) else (exc.id if isinstance(exc, ast.Name) else None)
             if nm not in EXC:
-                bad(st, "raise of an undeclared exception")
+                binds = []
+                v = self.expr(exc, env, binds)
+                if v.ty != "exc":
+                    bad(st, "raise of an undeclared exception")
+                return self.wrap(binds, self.spec.ret(self, V(v.text, "error"), env, st))
             return self.spec.ret(self, V("Err " + EXC[nm], "error"), env, st)
         if isinstance(st, ast.For) and isinstance(st.iter, ast.Tuple) and isinstance(st.target, ast.Name) and not st.orelse:
             unrolled = []
@@ -443,7 +587,7 @@ class Pure:
         if v.ty == "none":
             env[key] = NONE
             return cont(env)
-        if v.ty in ("slice_val", "region_slice", "tuple", "new_region"):
+        if v.ty in ("slice_val", "region_slice", "tuple", "new_region", "exc"):
             env[key] = v
             return cont(env)
         if v.ty == "sibling":
